@@ -113,7 +113,11 @@ func (s scenario) readersBody() func() {
 }
 
 func explore(r *kit.Result, s scenario, body func(), check sched.Check, bound int, maxExec int64) {
-	res := sched.Explore(body, check, sched.Options{MaxPreemptions: bound, MaxExecutions: maxExec, Horizon: 100000})
+	exploreOpts(r, s, body, check, sched.Options{MaxPreemptions: bound, MaxExecutions: maxExec, Horizon: 100000})
+}
+
+func exploreOpts(r *kit.Result, s scenario, body func(), check sched.Check, o sched.Options) {
+	res := sched.Explore(body, check, o)
 	r.Evals, r.States, r.Transitions, r.Distinct = res.Executions, res.States, res.Transitions, res.States
 	r.Nontrivial = res.MaxPoints > 0
 	r.Capped = res.Capped
@@ -122,7 +126,11 @@ func explore(r *kit.Result, s scenario, body func(), check sched.Check, bound in
 	if res.Unbounded {
 		r.Count("scenarios_explored_without_bound", 1)
 	} else {
-		r.Count(fmt.Sprintf("scenarios_completed_to_bound_%d", res.BoundCompleted), 1)
+		what := s.part
+		if s.part == "build" {
+			what = "build_" + s.kind
+		}
+		r.Count(fmt.Sprintf("%s_scenarios_completed_to_bound_%d", what, res.BoundCompleted), 1)
 	}
 	for _, f := range res.Failures {
 		e1 := sched.Replay(body, f.Choices, 100000)
@@ -247,9 +255,9 @@ func main() {
 					sc = append(sc, scenario{part: "build", kind: kind, src: src})
 				}
 			}
-			bound, maxExec, buildExec := 3, int64(20000), int64(150)
+			bound, maxExec, buildBound, buildExec := 3, int64(20000), 1, int64(300)
 			if tier == "thorough" {
-				bound, maxExec, buildExec = 4, 200000, 20000
+				bound, maxExec, buildBound, buildExec = 4, 200000, 2, 20000
 			}
 			return kit.FuncSpace{N: int64(len(sc)), F: func(i int64) kit.Result {
 				s := sc[i]
@@ -333,10 +341,17 @@ func main() {
 						}
 						return "equal", fails
 					}
-					explore(&r, s, body, check, 1, buildExec)
+					// basic: preemption bounding with deviations confined to one
+					// fork/join phase; compact (30x more choice points): deviation
+					// bounding (see C36, which explores builds deeper)
+					o := sched.Options{MaxPreemptions: buildBound, MaxExecutions: 20 * buildExec, Horizon: 100000, SinglePhase: true}
+					if s.kind == "compact" {
+						o = sched.Options{MaxPreemptions: 1, AllDeviations: true, MaxExecutions: buildExec, Horizon: 100000}
+					}
+					exploreOpts(&r, s, body, check, o)
 				}
 				return r
-			}}, fmt.Sprintf("%d scenarios: 1 race pass; reader pairs%s on compact/overlay/basic worlds (bound %d, cap %d); builds with 2 goroutines (bound 1, cap %d)", len(sc), map[bool]string{true: " and triples", false: ""}[tier == "thorough"], bound, maxExec, buildExec)
+			}}, fmt.Sprintf("%d scenarios: 1 race pass; reader pairs%s on compact/overlay/basic worlds (bound %d, cap %d); builds with 2 cores (basic: at most %d preemptions, deviations confined to one fork/join phase, cap %d executions; compact: at most 1 departure from the default schedule, cap %d executions)", len(sc), map[bool]string{true: " and triples", false: ""}[tier == "thorough"], bound, maxExec, buildBound, 20*buildExec, buildExec)
 		},
 	})
 }
